@@ -135,4 +135,69 @@ __attribute__((noinline)) void h_g1_faces(void) {
     else { __verif_check(tn == NO_TASK); size_t o = subs[nn]->get_hydro_task(sp); __verif_check(T()[o].get_type() == TN && T()[o].get_buffer() == g); }   // the lower face is covered by the lower neighbour's positive task
   }
 }
+// ---- C03-T4: duplicated sub-grids (REAL create_copies and update_original_counters; the copy constructor copies only what the wiring reads)
+#define MAXCOPY 3                                   /* level <= 2: at most 3 copies per sub-grid */
+#define NALL (NSUB * (1 + MAXCOPY))
+union UCS { HydroDensitySubGrid s[NSUB * MAXCOPY]; UCS() {} ~UCS() {} };
+}
+UCS g_ucs;
+extern "C" {
+int n_copy_new; HydroDensitySubGrid *all_subs[NALL + 1]; size_t originals_store[NSUB * MAXCOPY + 1], copies_store[NSUB]; unsigned char levels_store[NSUB];
+__attribute__((noinline)) void *stub_new_any(unsigned long size) {          // operator new: first the NSUB originals, then the copies (typed static storage)
+  __verif_check(size == sizeof(HydroDensitySubGrid));
+  if (n_new < NSUB) return &g_us.s[n_new++];
+  __verif_check(n_copy_new < NSUB * MAXCOPY); return &g_ucs.s[n_copy_new++];
+}
+// the reallocation / length-error paths of std::vector are unreachable with preallocated storage: reaching one is a failed obligation
+__attribute__((noinline)) void stub_throw0(void) { __verif_check(0); __CPROVER_assume(0); }
+__attribute__((noinline)) void stub_throw1(const char *) { __verif_check(0); __CPROVER_assume(0); }
+__attribute__((noinline)) void stub_subgrid_copy_ctor(HydroDensitySubGrid *self, const HydroDensitySubGrid *other) {
+  for (int k = 0; k < 4; ++k) self->_number_of_cells[k] = other->_number_of_cells[k];
+  for (int k = 0; k < TRAVELDIRECTION_NUMBER; ++k) self->_ngbs[k] = other->_ngbs[k];
+}
+int fold_calls, fold_hits, fold_bad; const DensitySubGrid *fold_probe_copy, *fold_probe_orig;
+__attribute__((noinline)) void stub_update_intensities(DensitySubGrid *self, const DensitySubGrid *copy) {
+  ++fold_calls; if (copy == fold_probe_copy) { ++fold_hits; if (self != fold_probe_orig) ++fold_bad; }
+}
+struct VecH { HydroDensitySubGrid **b, **e, **c; }; struct VecS { size_t *b, *e, *c; }; struct VecU { unsigned char *b, *e, *c; };
+__attribute__((noinline)) void h_t4_copies(void) {
+  build_grid();
+  Creator &c = creator();
+  // the three std::vector members given by begin / end / capacity pointers (libstdc++ layout), with room for every copy: push_back never reallocates
+  for (int i = 0; i < NSUB; ++i) { all_subs[i] = subs[i]; copies_store[i] = 0xffffffff; }
+  VecH *vs = reinterpret_cast<VecH *>(&c._subgrids); vs->b = all_subs; vs->e = all_subs + NSUB; vs->c = all_subs + NALL;
+  VecS *vo = reinterpret_cast<VecS *>(&c._originals); vo->b = originals_store; vo->e = originals_store; vo->c = originals_store + NSUB * MAXCOPY;
+  VecS *vc = reinterpret_cast<VecS *>(&c._copies); vc->b = copies_store; vc->e = copies_store + NSUB; vc->c = copies_store + NSUB;
+  unsigned total = NSUB;
+#ifdef LEVELS
+  { int code = LEVELS; for (int i = 0; i < NSUB; ++i) { levels_store[i] = code % 3; code /= 3; total += (1u << levels_store[i]) - 1; } }   // copy levels fixed per run (every assignment in {0,1,2}^NSUB is a separate run)
+#else
+  for (int i = 0; i < NSUB; ++i) { levels_store[i] = nondet_uchar(); __CPROVER_assume(levels_store[i] <= 2); total += (1u << levels_store[i]) - 1; }
+#endif
+  VecU lv; lv.b = levels_store; lv.e = levels_store + NSUB; lv.c = levels_store + NSUB;
+  n_copy_new = 0;
+  c.create_copies(*reinterpret_cast<std::vector< uint_fast8_t > *>(&lv));
+  __verif_check(c.number_of_actual_subgrids() == total);                           // 2^level - 1 copies per sub-grid, nothing else
+  __verif_check(vo->e == originals_store + (total - NSUB));
+  // symbolic probe: copy number k of sub-grid i, direction j
+  unsigned i = nondet_uint(), k = nondet_uint(), j = nondet_uint();
+  __CPROVER_assume(i < NSUB && j < 27 && k >= 1 && k < (1u << levels_store[i]));
+  const size_t copy = copies_store[i] + k - 1;
+  __verif_check(copy >= NSUB && copy < total);
+  __verif_check(originals_store[copy - NSUB] == i);                                 // the copy knows its original
+  __verif_check(all_subs[copy]->get_neighbour(0) == copy);                          // its own index
+  const uint32_t on = subs[i]->get_neighbour(j), cn = all_subs[copy]->get_neighbour(j);
+  if (j > 0) {
+    if (on == NEIGHBOUR_OUTSIDE) __verif_check(cn == NEIGHBOUR_OUTSIDE);            // a wall stays a wall
+    else { __verif_check(cn < total);                                               // every neighbour of a duplicate is the true neighbour or a duplicate of it
+      if (cn >= NSUB) __verif_check(originals_store[cn - NSUB] == on); else __verif_check(cn == on); }
+  }
+  // the originals keep their wiring
+  __verif_check(subs[i]->get_neighbour(j) == on);
+  // folding: every copy is folded into its own original exactly once
+  fold_calls = fold_hits = fold_bad = 0; fold_probe_copy = all_subs[copy]; fold_probe_orig = subs[i];
+  c.update_original_counters();
+  __verif_check(fold_hits == 1 && fold_bad == 0);
+  __verif_check(fold_calls == (int)(total - NSUB));
+}
 }
